@@ -10,7 +10,7 @@ from .lexer import lex_spans
 COMMENT_TEXTS = [
     "! plain", "!", "!! double", "! it's", '! say "hi', "! trailing &", "! x = 1; y = 2", "!$omp parallel do",
     "!dir$ ivdep", "!$ x = 1", "! 'quoted' \"both\"", "!gcc$ attributes", "!$acc loop", "! end if", "!end do",
-    "! a & b", "!x", "! 100 continue", "!$OMP END PARALLEL", "!DIR$ NOUNROLL", "! (unbalanced", "! tab\there",
+    "! a & b", "!x", "! 100 continue", "!$OMP END PARALLEL", "!DIR$ NOUNROLL", "! (unbalanced", "! two  blanks",
 ]
 
 DEFAULTS = dict(
@@ -86,6 +86,7 @@ def render(P, rng, opts=None):
     lines = []
     comments = []
     first, last = [], []
+    stmt_texts = {}
     n = len(P.stmts)
 
     def add_comment_line(kind, sidx, indent=None):
@@ -120,7 +121,10 @@ def render(P, rng, opts=None):
         while (rng.random() < o["p_semi"] and group[-1] + 1 < n
                and _joinable(P.stmts[group[-1]]) and _joinable(P.stmts[group[-1] + 1])):
             group.append(group[-1] + 1)
-        text = "; ".join(stmt_text(P.stmts[k], rng, o) for k in group) if len(group) > 1 else stmt_text(st, rng, o)
+        parts = [stmt_text(P.stmts[k], rng, o) for k in group]
+        for k, t in zip(group, parts):
+            stmt_texts[k] = t
+        text = "; ".join(parts)
         if rng.random() < o["p_trailing_semi"]:
             text += rng.choice([";", " ;"])
         start_line = len(lines) + 1
@@ -195,7 +199,8 @@ def render(P, rng, opts=None):
         while rng.random() < o["p_full"]:
             add_comment_line("full", n)
     text = "\n".join(lines) + "\n"
-    return text, {"stmt_first": first, "stmt_last": last, "comments": comments, "n_lines": len(lines)}
+    return text, {"stmt_first": first, "stmt_last": last, "comments": comments, "n_lines": len(lines),
+                  "stmt_texts": [stmt_texts[k] for k in range(n)]}
 
 
 def _joinable(st):
